@@ -29,14 +29,13 @@ import (
 // to write a table with no data.
 // This changes the checksum in the "head" table in place.
 func Write(w io.Writer, scalerType uint32, tables map[string][]byte) (int64, error) {
-	numTables := len(tables)
-
-	tableNames := make([]string, 0, numTables)
+	tableNames := make([]string, 0, len(tables))
 	for name, data := range tables {
 		if data != nil && len(name) == 4 {
 			tableNames = append(tableNames, name)
 		}
 	}
+	numTables := len(tableNames)
 
 	// sort the table names in the recommended order
 	sort.Slice(tableNames, func(i, j int) bool {
@@ -59,7 +58,12 @@ func Write(w io.Writer, scalerType uint32, tables map[string][]byte) (int64, err
 	}
 
 	// temporarily clear the checksum in the "head" table
-	if headData, ok := tables["head"]; ok {
+	headData := tables["head"]
+	if len(headData) < 12 {
+		// too short to hold the checksum adjustment field
+		headData = nil
+	}
+	if headData != nil {
 		clearChecksum(headData)
 	}
 
@@ -90,7 +94,7 @@ func Write(w io.Writer, scalerType uint32, tables map[string][]byte) (int64, err
 	totalSum += checksum(headerBytes)
 
 	// set the final checksum in the "head" table
-	if headData, ok := tables["head"]; ok {
+	if headData != nil {
 		patchChecksum(headData, totalSum)
 	}
 
